@@ -214,6 +214,10 @@ def run(ctx):
         st = run_iso(ctx, binp, items, "e2e-C14 corpus")
         stats["corpus %s %s @%sx" % (mode, kind, scale)] = st
         ctx.log("e2e-C14 corpus %-15s %-6s @%sx: %s" % (mode, kind, scale, st))
+        if mode == 'root' and kind == 'fit' and st['cases'] > 100 and st['more_layers'] == 0:
+            ctx.violation("the oracle is vacuous: wrapping the content in <g style=\"isolation:isolate\"> allocated no additional layer in "
+                          "%d documents (Group::should_isolate / the isolation property no longer force a layer)" % st['cases'],
+                          dict(op='c14-iso', doc=items[0][0], mode=mode, seed=items[0][2], cfg=items[0][3]))
         if len(ctx.violations) > 8:
             break
 
